@@ -82,7 +82,7 @@ func init() {
 		objectPut,
 		objectHasProperty,
 		objectHasOwnProperty,
-		objectDefineOwnProperty,
+		stringDefineOwnProperty,
 		objectDelete,
 		stringEnumerate,
 		objectClone,
